@@ -680,6 +680,8 @@ class Parser:
         node: ast.Call | None = None
         start = {"lineno": locs["lineno"], "col_offset": locs["col_offset"]}
         for atom, tok in atoms:
+            if node is not None and not isinstance(atom, ast.Name):  # only `obj?.name?` chains through an attribute
+                self.raise_syntax_error_known_location("invalid syntax", atom)
             fn = "superhelp" if tok.is_exact_type("??") else "help"
             # every call spans from the start of the construct up to its own question mark(s)
             if node is None:
